@@ -32,3 +32,8 @@ package capacity
 //@   assert-at return#4 opened-db-has-the-requested-key: lastEq
 //@   ensures loaded-space-shape: err == nil ==> result0 != nil && (result0.state == 0 || result0.state == 2) && result0.rootDir == rootDir
 //@   ensures state-from-progress: err == nil ==> result0.state == ite(lastresult("Progress", 1), 2, 0)
+
+// ---- C05: the keeper signs through the wallet with the public key of the named space
+//@ func (*SpaceKeeper).SignHash
+//@   assert-at call SignMessage signs-with-the-key-of-the-named-space: arg1 == lastresult("PubKey") && len(arg2) == 32
+//@   assert-at call PubKey key-of-the-space-found-under-that-id: arg0 == ws.id && ok
